@@ -3,8 +3,8 @@
   (`isValid`) relates to the specification's input coercion (`coerce`):
     coerce_mono       a literal that coerces (enum names only as enum tokens) coerces alike as JSON
     coerce_valid      whatever coerces is accepted by `isValid` (tables whose oneof variants are nullable)
-    valid_coerce      whatever `isValid` accepts coerces, for 32-bit integers and values without a
-                      non-object where an input object is expected (`noHole`) — `isValid` lets those through
+    valid_coerce      whatever the repaired `isValid` (toggle `nonObjectPassesInputObject` off) accepts
+                      coerces, for 32-bit integers
     coerce_shapeOk    a coercible value with distinct keys has the shape `c06_value_wf` asks for
     compat_coerce     a value that coerces at a variable's type coerces alike at every compatible position
 -/
@@ -154,8 +154,8 @@ theorem validScalar_coerce (n : String) (v : GValue)
     simp [coerceScalar, (i32_domain _).mpr hs]
   all_goals first | (simp [coerceScalar]; done) | cases h
 
-theorem coerceLeaf_valid (T : Table) (n : String) (v c : GValue)
-    (h : coerceLeaf T true n v = some c) : isValidLeaf T n v = true := by
+theorem coerceLeaf_valid (np : Bool) (T : Table) (n : String) (v c : GValue)
+    (h : coerceLeaf T true n v = some c) : isValidLeaf np T n v = true := by
   unfold coerceLeaf at h
   unfold isValidLeaf
   split at h
@@ -168,8 +168,8 @@ theorem coerceLeaf_valid (T : Table) (n : String) (v c : GValue)
   · cases h
 
 theorem validLeaf_coerce (T : Table) (n : String) (v : GValue)
-    (h : isValidLeaf T n v = true) (hs : intsSmall v = true) (hl : isLeaf v = true)
-    (hh : ∀ o fs, T.find? n ≠ some (.input o fs)) : (coerceLeaf T true n v).isSome = true := by
+    (h : isValidLeaf false T n v = true) (hs : intsSmall v = true) (hl : isLeaf v = true) :
+    (coerceLeaf T true n v).isSome = true := by
   unfold isValidLeaf at h
   unfold coerceLeaf
   split at h
@@ -179,7 +179,7 @@ theorem validLeaf_coerce (T : Table) (n : String) (v : GValue)
   · rename_i vs hf
     simp only [hf]
     cases v <;> simp_all [coerceEnum]
-  · rename_i o fs hf; exact absurd hf (hh o fs)
+  · cases h
   · cases h
 
 
@@ -265,27 +265,27 @@ theorem coerce_null_inv (T : Table) (j : Bool) (ty : TypeRef) (a : GValue) (h : 
   split at h <;> simp_all
 
 mutual
-theorem coerce_valid (T : Table) (hw : wfTable2 T = true) : ∀ (v : GValue) (ty : TypeRef) (c : GValue),
-    coerce T true ty v = some c → isValid T ty v = true
+theorem coerce_valid (np : Bool) (T : Table) (hw : wfTable2 T = true) : ∀ (v : GValue) (ty : TypeRef) (c : GValue),
+    coerce T true ty v = some c → isValid np T ty v = true
   | .null, ty, c, h => by
     simp only [coerce] at h
     simp only [isValid]
     split at h <;> simp_all
   | .int i, ty, c, h => by
     simp only [coerce, Option.map_eq_some_iff] at h
-    obtain ⟨a, ha, _⟩ := h; simp only [isValid]; exact coerceLeaf_valid T _ _ _ ha
+    obtain ⟨a, ha, _⟩ := h; simp only [isValid]; exact coerceLeaf_valid np T _ _ _ ha
   | .float i, ty, c, h => by
     simp only [coerce, Option.map_eq_some_iff] at h
-    obtain ⟨a, ha, _⟩ := h; simp only [isValid]; exact coerceLeaf_valid T _ _ _ ha
+    obtain ⟨a, ha, _⟩ := h; simp only [isValid]; exact coerceLeaf_valid np T _ _ _ ha
   | .str i, ty, c, h => by
     simp only [coerce, Option.map_eq_some_iff] at h
-    obtain ⟨a, ha, _⟩ := h; simp only [isValid]; exact coerceLeaf_valid T _ _ _ ha
+    obtain ⟨a, ha, _⟩ := h; simp only [isValid]; exact coerceLeaf_valid np T _ _ _ ha
   | .bool i, ty, c, h => by
     simp only [coerce, Option.map_eq_some_iff] at h
-    obtain ⟨a, ha, _⟩ := h; simp only [isValid]; exact coerceLeaf_valid T _ _ _ ha
+    obtain ⟨a, ha, _⟩ := h; simp only [isValid]; exact coerceLeaf_valid np T _ _ _ ha
   | .enum i, ty, c, h => by
     simp only [coerce, Option.map_eq_some_iff] at h
-    obtain ⟨a, ha, _⟩ := h; simp only [isValid]; exact coerceLeaf_valid T _ _ _ ha
+    obtain ⟨a, ha, _⟩ := h; simp only [isValid]; exact coerceLeaf_valid np T _ _ _ ha
   | .list xs, ty, c, h => by
     simp only [coerce] at h
     simp only [isValid]
@@ -294,7 +294,7 @@ theorem coerce_valid (T : Table) (hw : wfTable2 T = true) : ∀ (v : GValue) (ty
       simp only [Option.map_eq_some_iff] at h
       obtain ⟨a, ha, _⟩ := h
       simp only [ht]
-      exact coerceList_valid T hw xs t a ha
+      exact coerceList_valid np T hw xs t a ha
     · cases h
   | .obj fs, ty, c, h => by
     simp only [coerce] at h
@@ -307,7 +307,7 @@ theorem coerce_valid (T : Table) (hw : wfTable2 T = true) : ∀ (v : GValue) (ty
       | some es =>
         simp only [hc, Option.map_eq_some_iff] at h
         obtain ⟨r, hr, _⟩ := h
-        have hent := coerceEntries_valid T hw fs fields es hc
+        have hent := coerceEntries_valid np T hw fs fields es hc
         have hkeys := coerceEntries_keys T true fields fs es hc
         simp only [hent, Bool.and_true, Bool.and_eq_true]
         cases o with
@@ -349,8 +349,8 @@ theorem coerce_valid (T : Table) (hw : wfTable2 T = true) : ∀ (v : GValue) (ty
             intro f hfm
             exact Or.inr (Or.inr (hnul f hfm))
     · cases h
-theorem coerceList_valid (T : Table) (hw : wfTable2 T = true) : ∀ (xs : List GValue) (t : TypeRef) (cs : List GValue),
-    coerceList T true t xs = some cs → isValidList T t xs = true
+theorem coerceList_valid (np : Bool) (T : Table) (hw : wfTable2 T = true) : ∀ (xs : List GValue) (t : TypeRef) (cs : List GValue),
+    coerceList T true t xs = some cs → isValidList np T t xs = true
   | [], t, cs, h => by simp [isValidList]
   | x :: xs, t, cs, h => by
     simp only [coerceList] at h
@@ -360,10 +360,10 @@ theorem coerceList_valid (T : Table) (hw : wfTable2 T = true) : ∀ (xs : List G
     | some a =>
       cases h2 : coerceList T true t xs with
       | none => simp [h1, h2] at h
-      | some b => exact ⟨coerce_valid T hw x t a h1, coerceList_valid T hw xs t b h2⟩
-theorem coerceEntries_valid (T : Table) (hw : wfTable2 T = true) : ∀ (fs : List (String × GValue)) (fields : List InField)
+      | some b => exact ⟨coerce_valid np T hw x t a h1, coerceList_valid np T hw xs t b h2⟩
+theorem coerceEntries_valid (np : Bool) (T : Table) (hw : wfTable2 T = true) : ∀ (fs : List (String × GValue)) (fields : List InField)
     (es : List (String × GValue)),
-    coerceEntries T true fields fs = some es → isValidEntries T fields fs = true
+    coerceEntries T true fields fs = some es → isValidEntries np T fields fs = true
   | [], fields, es, h => by simp [isValidEntries]
   | (k, v) :: rest, fields, es, h => by
     simp only [coerceEntries] at h
@@ -377,94 +377,55 @@ theorem coerceEntries_valid (T : Table) (hw : wfTable2 T = true) : ∀ (fs : Lis
       | some a =>
         cases h2 : coerceEntries T true fields rest with
         | none => simp [h1, h2] at h
-        | some b => exact ⟨coerce_valid T hw v f.ty.gql a h1, coerceEntries_valid T hw rest fields b h2⟩
+        | some b => exact ⟨coerce_valid np T hw v f.ty.gql a h1, coerceEntries_valid np T hw rest fields b h2⟩
 end
 
 
 -- ------------------------------------------------------------------ what is valid coerces
 
-def isInputTy (T : Table) (n : String) : Bool :=
-  match T.find? n with
-  | some (.input _ _) => true
-  | _ => false
-
-mutual
-/-- where an input object type is expected the value is an object, null, or (at a list type) a
-    list of such: `is_valid_input_value` lets any other value through at an input object type
-    (`_ => None`), the specification does not -/
-def noHole (T : Table) : TypeRef → GValue → Bool
-  | _, .null => true
-  | ty, .list xs =>
-    match ty.nullable with
-    | .list t => noHoleList T t xs
-    | _ => !isInputTy T ty.base
-  | ty, .obj fs =>
-    match T.find? ty.base with
-    | some (.input _ fields) => noHoleEntries T fields fs
-    | _ => true
-  | ty, .int _ => !isInputTy T ty.base
-  | ty, .float _ => !isInputTy T ty.base
-  | ty, .str _ => !isInputTy T ty.base
-  | ty, .bool _ => !isInputTy T ty.base
-  | ty, .enum _ => !isInputTy T ty.base
-def noHoleList (T : Table) (t : TypeRef) : List GValue → Bool
-  | [] => true
-  | x :: xs => noHole T t x && noHoleList T t xs
-def noHoleEntries (T : Table) (fields : List InField) : List (String × GValue) → Bool
-  | [] => true
-  | (k, v) :: rest =>
-    (match fields.find? (·.name = k) with
-     | some f => noHole T f.ty.gql v
-     | none => true) && noHoleEntries T fields rest
-end
-
 theorem leaf_case (T : Table) (ty : TypeRef) (v : GValue) (hl : isLeaf v = true)
-    (h : isValidLeaf T ty.base v = true) (hs : intsSmall v = true) (hh : isInputTy T ty.base = false) :
+    (h : isValidLeaf false T ty.base v = true) (hs : intsSmall v = true) :
     ∃ c, (coerceLeaf T true ty.base v).map (wrap ty) = some c := by
-  have := validLeaf_coerce T ty.base v h hs hl (by
-    intro o fs e; simp [isInputTy, e] at hh)
+  have := validLeaf_coerce T ty.base v h hs hl
   obtain ⟨a, ha⟩ := Option.isSome_iff_exists.mp this
   exact ⟨wrap ty a, by simp [ha]⟩
 
 mutual
 theorem valid_coerce (T : Table) : ∀ (v : GValue) (ty : TypeRef),
-    isValid T ty v = true → intsSmall v = true → noHole T ty v = true → ∃ c, coerce T true ty v = some c
-  | .null, ty, h, _, _ => by
+    isValid false T ty v = true → intsSmall v = true → ∃ c, coerce T true ty v = some c
+  | .null, ty, h, _ => by
     simp only [isValid] at h
     simp only [coerce]
     split <;> simp_all
-  | .int i, ty, h, hs, hh => by
-    simp only [isValid] at h; simp only [noHole] at hh; simp only [coerce]
-    exact leaf_case T ty _ rfl h hs (by simpa using hh)
-  | .float i, ty, h, hs, hh => by
-    simp only [isValid] at h; simp only [noHole] at hh; simp only [coerce]
-    exact leaf_case T ty _ rfl h hs (by simpa using hh)
-  | .str i, ty, h, hs, hh => by
-    simp only [isValid] at h; simp only [noHole] at hh; simp only [coerce]
-    exact leaf_case T ty _ rfl h hs (by simpa using hh)
-  | .bool i, ty, h, hs, hh => by
-    simp only [isValid] at h; simp only [noHole] at hh; simp only [coerce]
-    exact leaf_case T ty _ rfl h hs (by simpa using hh)
-  | .enum i, ty, h, hs, hh => by
-    simp only [isValid] at h; simp only [noHole] at hh; simp only [coerce]
-    exact leaf_case T ty _ rfl h hs (by simpa using hh)
-  | .list xs, ty, h, hs, hh => by
-    simp only [isValid] at h; simp only [noHole] at hh; simp only [coerce]
+  | .int i, ty, h, hs => by
+    simp only [isValid] at h; simp only [coerce]
+    exact leaf_case T ty _ rfl h hs
+  | .float i, ty, h, hs => by
+    simp only [isValid] at h; simp only [coerce]
+    exact leaf_case T ty _ rfl h hs
+  | .str i, ty, h, hs => by
+    simp only [isValid] at h; simp only [coerce]
+    exact leaf_case T ty _ rfl h hs
+  | .bool i, ty, h, hs => by
+    simp only [isValid] at h; simp only [coerce]
+    exact leaf_case T ty _ rfl h hs
+  | .enum i, ty, h, hs => by
+    simp only [isValid] at h; simp only [coerce]
+    exact leaf_case T ty _ rfl h hs
+  | .list xs, ty, h, hs => by
+    simp only [isValid] at h; simp only [coerce]
     simp only [intsSmall] at hs
     cases ht : ty.nullable with
     | list t =>
-      simp only [ht] at h hh ⊢
-      obtain ⟨cs, hcs⟩ := valid_coerceList T xs t h hs hh
+      simp only [ht] at h ⊢
+      obtain ⟨cs, hcs⟩ := valid_coerceList T xs t h hs
       exact ⟨.list cs, by simp [hcs]⟩
     | named n =>
-      simp only [ht] at h hh
-      have hb : ty.base = n := by rw [← nullable_base, ht]; rfl
-      rw [hb] at hh
-      simp only [isInputTy] at hh
-      split at h <;> simp_all
+      simp only [ht] at h
+      split at h <;> cases h
     | nonNull t => simp [ht] at h
-  | .obj fs, ty, h, hs, hh => by
-    simp only [isValid] at h; simp only [noHole] at hh; simp only [coerce]
+  | .obj fs, ty, h, hs => by
+    simp only [isValid] at h; simp only [coerce]
     simp only [intsSmall] at hs
     cases hf : T.find? ty.base with
     | none => simp [hf] at h
@@ -473,9 +434,9 @@ theorem valid_coerce (T : Table) : ∀ (v : GValue) (ty : TypeRef),
       | scalar => simp [hf] at h
       | enum vs => simp [hf] at h
       | input o fields =>
-        simp only [hf, Bool.and_eq_true] at h hh ⊢
+        simp only [hf, Bool.and_eq_true] at h ⊢
         obtain ⟨⟨h1, h2⟩, h3⟩ := h
-        obtain ⟨es, hes⟩ := valid_coerceEntries T fs fields h2 hs hh
+        obtain ⟨es, hes⟩ := valid_coerceEntries T fs fields h2 hs
         have hkeys := coerceEntries_keys T true fields fs es hes
         simp only [hes]
         cases o with
@@ -509,26 +470,26 @@ theorem valid_coerce (T : Table) : ∀ (v : GValue) (ty : TypeRef),
                   have hane := coerce_ne_null T true _ v a hv hc
                   exact ⟨wrap ty (.obj [(k, a)]), by simp [finishOneOf_one k a hane]⟩
 theorem valid_coerceList (T : Table) : ∀ (xs : List GValue) (t : TypeRef),
-    isValidList T t xs = true → intsSmallList xs = true → noHoleList T t xs = true →
+    isValidList false T t xs = true → intsSmallList xs = true →
     ∃ cs, coerceList T true t xs = some cs
-  | [], t, _, _, _ => ⟨[], by simp [coerceList]⟩
-  | x :: xs, t, h, hs, hh => by
-    simp only [isValidList, intsSmallList, noHoleList, Bool.and_eq_true] at h hs hh
-    obtain ⟨a, ha⟩ := valid_coerce T x t h.1 hs.1 hh.1
-    obtain ⟨b, hb⟩ := valid_coerceList T xs t h.2 hs.2 hh.2
+  | [], t, _, _ => ⟨[], by simp [coerceList]⟩
+  | x :: xs, t, h, hs => by
+    simp only [isValidList, intsSmallList, Bool.and_eq_true] at h hs
+    obtain ⟨a, ha⟩ := valid_coerce T x t h.1 hs.1
+    obtain ⟨b, hb⟩ := valid_coerceList T xs t h.2 hs.2
     exact ⟨a :: b, by simp [coerceList, ha, hb]⟩
 theorem valid_coerceEntries (T : Table) : ∀ (fs : List (String × GValue)) (fields : List InField),
-    isValidEntries T fields fs = true → intsSmallFields fs = true → noHoleEntries T fields fs = true →
+    isValidEntries false T fields fs = true → intsSmallFields fs = true →
     ∃ es, coerceEntries T true fields fs = some es
-  | [], fields, _, _, _ => ⟨[], by simp [coerceEntries]⟩
-  | (k, v) :: rest, fields, h, hs, hh => by
-    simp only [isValidEntries, intsSmallFields, noHoleEntries, Bool.and_eq_true] at h hs hh
+  | [], fields, _, _ => ⟨[], by simp [coerceEntries]⟩
+  | (k, v) :: rest, fields, h, hs => by
+    simp only [isValidEntries, intsSmallFields, Bool.and_eq_true] at h hs
     cases hf : fields.find? (·.name = k) with
     | none => simp [hf] at h
     | some f =>
-      simp only [hf] at h hh
-      obtain ⟨a, ha⟩ := valid_coerce T v f.ty.gql h.1 hs.1 hh.1
-      obtain ⟨b, hb⟩ := valid_coerceEntries T rest fields h.2 hs.2 hh.2
+      simp only [hf] at h
+      obtain ⟨a, ha⟩ := valid_coerce T v f.ty.gql h.1 hs.1
+      obtain ⟨b, hb⟩ := valid_coerceEntries T rest fields h.2 hs.2
       exact ⟨(k, a) :: b, by simp [coerceEntries, hf, ha, hb]⟩
 end
 
